@@ -116,6 +116,19 @@ func init() {
 		Outside:     []string{"receivers longer than 3 (strings 4)", "sort(), join(), flat(depth) on nested lists, forEach", "multi-byte strings and the unit of length", "callbacks using the array argument"},
 	})
 
+	reg(Check{
+		ID:  "C07",
+		Pkg: "verif/harness/c07",
+		Runs: []RunDef{
+			{Fn: "H_visibility", Tier: "quick", Reach: []string{"end"}},
+			{Fn: "H_types", Tier: "quick", Reach: []string{"end"}},
+			{Fn: "H_abstract", Tier: "quick", Reach: []string{"end"}},
+		},
+		Rule:        rule + "; (7 member kinds x 3 modifiers) x (5 access sites) and (6 declared types x 9 runtime value kinds) x (3 boundaries) enumerated completely by solver-driven case split over one fixture family; the written payload is a symbolic int, so a denied write is shown to leave the member unchanged for every value. The structural dimension is exhaustive enumeration executed through the engine; the universal (solver) part is payload independence",
+		Assumptions: []string{"strict typing: a declared scalar type accepts exactly values of that type (no coercion)"},
+		Outside:     []string{"hierarchy-shape variation, enum/readonly, traits", "static:: / self:: access paths, __get/__set"},
+	})
+
 	c17 := func(fn string, p map[string]int) RunDef {
 		return RunDef{Fn: fn, Params: p, Tier: "quick", Reach: []string{"end"}}
 	}
